@@ -441,6 +441,7 @@ decided by exhaustive evaluation of the guard over environment x {no, some tagge
     choice_override(m, ctx, &ev, &render);
     nested_choice_override(m, ctx);
     coverage(m, ctx, apply_fn, &pass_fns, &sites);
+    pass_evaluated(m, ctx);
     auto_tags(m, ctx, &ev);
     crate::rules::c05::member_annotations(m, ctx, "C03.member", "tag");
     header_flow(m, ctx, "C03.header");
@@ -912,5 +913,86 @@ pub fn header_flow(m: &Model, ctx: &mut Ctx, rule: &str) {
     if tok(&apply[0].receiver) != tok(&set[0].receiver) {
         ctx.violate(rule, "same-definition", &f.file, span_line(apply[0]),
             "apply_tagging_environment and set_module_header are applied to different values");
+    }
+}
+
+
+/// C03.coverage (the pass evaluated): `ToplevelDefinition::apply_tagging_environment` is run (its recursion through
+/// `ASN1Type::apply_tagging_environment` followed) on a type assignment that carries a tag at every kind of position and at
+/// two depths — the assignment itself, a component, a CHOICE alternative, an element, and the same below a nested anonymous
+/// SEQUENCE, below a CHOICE alternative and below a SEQUENCE OF. `+` on tagging environments is observed: afterwards
+/// *every* tag of the tree is the module default combined with its own keyword; class and number are untouched. A position
+/// the pass leaves out keeps the parser's placeholder, i.e. the module default is not applied there.
+fn pass_evaluated(m: &Model, ctx: &mut Ctx) {
+    use crate::eval::{Env, Evaluator, Val};
+    let rule = "C03.coverage";
+    let Some(top) = m.fns.iter().find(|f| f.name == "apply_tagging_environment" && f.self_ty.as_deref() == Some("ToplevelDefinition")) else {
+        ctx.fail_closed(rule, "anchor not found: ToplevelDefinition::apply_tagging_environment");
+        return;
+    };
+    let consts = const_resolver(m);
+    let inl = inline_all(m, &["ASN1Type", "AsnTag"]);
+    let hook = |_: &Evaluator, name: &str, a: &[Val]| -> Option<Result<Val, String>> {
+        match name {
+            "op:add" => match (a.first(), a.get(1)) {
+                (Some(Val::Ctor(x, _, _)), Some(own)) if x == "MODULE-DEFAULT" => Some(Ok(Val::Ctor("APPLIED".into(), vec![own.clone()], BTreeMap::new()))),
+                _ => None,
+            },
+            _ => None,
+        }
+    };
+    let ev = Evaluator { consts: &consts, call_hook: &hook, inline: Some(&inl) };
+    let named = |n: &str, fields: Vec<(&str, Val)>| Val::Ctor(n.to_string(), vec![], fields.into_iter().map(|(k, v)| (k.to_string(), v)).collect::<BTreeMap<_, _>>());
+    let wrap = |n: &str, inner: Val| Val::Ctor(n.into(), vec![inner], BTreeMap::new());
+    let tag = |id: i128| Val::some(named("AsnTag", vec![("id", Val::int(id)), ("tag_class", Val::ctor("Application")), ("environment", Val::Ctor("OWN".into(), vec![Val::int(id)], BTreeMap::new()))]));
+    let leaf = || wrap("Boolean", named("Boolean", vec![("constraints", Val::List(vec![]))]));
+    let member = |name: &str, t: Val, ty: Val| named("SequenceOrSetMember", vec![("name", Val::Str(name.into())), ("tag", t), ("ty", ty), ("optionality", Val::ctor("Required")), ("is_recursive", Val::Bool(false)), ("constraints", Val::List(vec![]))]);
+    let option = |name: &str, t: Val, ty: Val| named("ChoiceOption", vec![("name", Val::Str(name.into())), ("tag", t), ("ty", ty), ("is_recursive", Val::Bool(false)), ("constraints", Val::List(vec![]))]);
+    let seq = |kind: &str, members: Vec<Val>| wrap(kind, named("SequenceOrSet", vec![("members", Val::List(members)), ("extensible", Val::none()), ("components_of", Val::List(vec![])), ("constraints", Val::List(vec![]))]));
+    let choice = |options: Vec<Val>| wrap("Choice", named("Choice", vec![("options", Val::List(options)), ("extensible", Val::none()), ("constraints", Val::List(vec![]))]));
+    let coll = |kind: &str, el: Val, etag: Val| wrap(kind, named("SequenceOrSetOf", vec![("element_type", el), ("element_tag", etag), ("constraints", Val::List(vec![])), ("is_recursive", Val::Bool(false))]));
+    // tag numbers name the positions
+    let positions: Vec<(i128, &str)> = vec![(1, "the type assignment"), (2, "a SEQUENCE component"), (3, "a component of a nested anonymous SET"), (4, "a CHOICE alternative"), (5, "a component below a CHOICE alternative"),
+        (6, "the element of a SEQUENCE OF"), (7, "a component of the element type of a SET OF"), (8, "an alternative of a CHOICE nested in a CHOICE"), (9, "the element of a SEQUENCE OF inside a SEQUENCE OF")];
+    let ty = seq("Sequence", vec![
+        member("a", tag(2), leaf()),
+        member("b", Val::none(), seq("Set", vec![member("b1", tag(3), leaf())])),
+        member("c", Val::none(), choice(vec![option("c1", tag(4), seq("Sequence", vec![member("c11", tag(5), leaf())])), option("c2", Val::none(), choice(vec![option("c21", tag(8), leaf())]))])),
+        member("d", Val::none(), coll("SequenceOf", leaf(), tag(6))),
+        member("e", Val::none(), coll("SetOf", seq("Sequence", vec![member("e1", tag(7), leaf())]), Val::none())),
+        member("f", Val::none(), coll("SequenceOf", coll("SequenceOf", leaf(), tag(9)), Val::none())),
+    ]);
+    let tld = wrap("Type", named("ToplevelTypeDefinition", vec![("comments", Val::Str(String::new())), ("tag", tag(1)), ("name", Val::Str("T".into())), ("ty", ty), ("parameterization", Val::none()), ("module_header", Val::none())]));
+    let params: Vec<String> = top.sig.inputs.iter().filter_map(|a| match a { syn::FnArg::Typed(t) => Some(tok(&t.pat)), _ => None }).collect();
+    let mut env = Env::new();
+    env.insert("self".into(), tld);
+    env.insert(params.first().cloned().unwrap_or("environment".into()), Val::ctor("MODULE-DEFAULT"));
+    if let Err(e) = ev.eval_fn_body(&top.block, &mut env) {
+        ctx.fail_closed(rule, &format!("[tagging pass]: {}", e));
+        return;
+    }
+    fn tags(v: &Val, out: &mut Vec<Val>) {
+        match v {
+            Val::Ctor(n, _, _) if n == "AsnTag" => out.push(v.clone()),
+            Val::Ctor(_, p, f) => { p.iter().for_each(|x| tags(x, out)); f.values().for_each(|x| tags(x, out)); }
+            Val::List(l) | Val::Tuple(l) => l.iter().for_each(|x| tags(x, out)),
+            _ => {}
+        }
+    }
+    let mut found = vec![];
+    if let Some(v) = env.get("self") { tags(v, &mut found); }
+    for (id, what) in positions {
+        ctx.oblige(rule, &format!("pass-evaluated:{}", what.replace(' ', "-")), true);
+        let t = found.iter().find(|t| matches!(t, Val::Ctor(_, _, f) if f.get("id") == Some(&Val::int(id))));
+        let (envv, class) = match t { Some(Val::Ctor(_, _, f)) => (f.get("environment").cloned(), f.get("tag_class").cloned()), _ => (None, None) };
+        let want = Val::Ctor("APPLIED".into(), vec![Val::Ctor("OWN".into(), vec![Val::int(id)], BTreeMap::new())], BTreeMap::new());
+        if t.is_none() {
+            ctx.violate(rule, &format!("pass-evaluated:tag-lost:{}", what.replace(' ', "-")), &top.file, top.line, &format!("after the tagging pass the tag on {} is gone", what));
+        } else if envv.as_ref() != Some(&want) {
+            ctx.violate(rule, &format!("pass-evaluated:default-not-applied:{}", what.replace(' ', "-")), &top.file, top.line,
+                &format!("after the tagging pass the tag on {} has the environment `{}` — expected the module default combined with the tag's own keyword, once: a tag at this position is rendered without regard to the module's TAGS clause (X.680 31.2.7 holds at every position and depth)", what, envv.map(|v| v.show()).unwrap_or_default()));
+        } else if class != Some(Val::ctor("Application")) {
+            ctx.violate(rule, &format!("pass-evaluated:class-changed:{}", what.replace(' ', "-")), &top.file, top.line, &format!("the tagging pass changes the class of the tag on {}", what));
+        }
     }
 }
